@@ -7,7 +7,13 @@ import re
 
 
 def parse_script_out(a):
-    """'ok 3 make 0 1 run 0 x.. ...' -> (result tuple, [events])"""
+    """'ok 3 make 0 1 run 0 x.. ...' -> (result tuple, [events]); a second script's result
+    (`<res1> ;; <res2> <n> events`) is dropped here"""
+    if " ;; " in a:
+        first, rest = a.split(" ;; ", 1)
+        r = rest.split(" ")
+        skip = {"ok": 1, "crashed": 1, "-": 1, "failed": 4, "parseerr": 3}.get(r[0], 1)
+        a = first + " " + " ".join(r[skip:])
     t = a.split(" ")
     if t[0] == "ok":
         res, i = ("ok",), 1
@@ -115,6 +121,8 @@ def oracle_c10(case, impl, tag, ctx):
         mm = re.match(r'Some\("(\w+)"\)', s)
         return mm.group(1) if mm else None
     eff = mode(q) or mode(f)
+    if " um=true" in tag and " vw=false" in tag and eff != "valuesort":
+        return None     # no expected line can match such a row (not a question of order)
     res = impl.split(" ")[0]
     if (eff == "valuesort" or (eff == "rowsort" and pk == "rows")) and res != "ok":
         return f"a reordered answer fails under effective {eff}: {impl.split(' ')[:3]}"
@@ -134,12 +142,24 @@ def oracle_c11(case, impl, tag, ctx):
         S.add(engine)
     runs = all((l in S) if only == "true" else (l not in S) for only, l in guards)
     res, evs = parse_script_out(impl)
+    m2 = re.search(r" second guards2=(\[.*?\]) labels2=(\[.*?\])", tag)
+    if m2:
+        # labels added between two scripts count for the second one
+        g2 = re.findall(r'\((true|false), "(\w+)"\)', m2.group(1))
+        S2 = set(labels) | set(re.findall(r'"(\w+)"', m2.group(2)))
+        if engine:
+            S2.add(engine)
+        runs2 = all((l in S2) if only == "true" else (l not in S2) for only, l in g2)
+        executed2 = any(e[0] == "run" and e[2] == "guarded2" for e in evs)
+        if executed2 != runs2:
+            return f"second script, guards {g2} labels {sorted(S2)} (some added after the first script): executed={executed2}, reference says {runs2}"
     executed = any((e[0] == "run" and e[2] == "guarded") or (e[0] == "cmd" and e[1] == "guarded") for e in evs)
     if executed != runs:
         return f"guards {guards} labels {sorted(S)}: executed={executed}, reference says {runs}"
     if runs:
         # the expectation is deliberately wrong: an executed record must fail at line len(guards)+1
-        if res[0] != "failed" or res[1] != len(guards) + 1:
+        ml = re.search(r" line=(\d+)", tag)
+        if res[0] != "failed" or res[1] != (int(ml.group(1)) if ml else len(guards) + 1):
             return f"executed guarded record should fail at its own line, got {res}"
     else:
         if res[0] != "ok":
@@ -324,6 +344,31 @@ def known_nonascii_ws_value(item, k):
     return False
 
 
+def known_blank_value_in_row(item, k):
+    # a value made of white space only inside a row of two or more columns
+    if not item["case"].startswith("update "):
+        return False
+    try:
+        _, rest = _update_case_parts(item)
+    except Exception:
+        return False
+    i = 0
+    while i < len(rest):
+        if rest[i] == "rows" and i + 2 < len(rest) and rest[i + 2].isdigit():
+            try:
+                n = int(rest[i + 2]); j = i + 3
+                for _ in range(n):
+                    c = int(rest[j]); vals = rest[j + 1:j + 1 + c]; j += 1 + c
+                    if c >= 2 and any(bytes.fromhex(v[1:]).decode("utf-8", "replace").strip() == "" for v in vals):
+                        return True
+                i = j
+                continue
+            except Exception:
+                pass
+        i += 1
+    return False
+
+
 def known_error_retry_no_types(item, k):
     # `query error retry N backoff D` whose query succeeds on an engine that reports no column types
     if not (item["case"].startswith("update ") or item["case"].startswith("cliupdate ")):
@@ -338,6 +383,7 @@ def known_error_retry_no_types(item, k):
 
 
 KNOWN_PREDICATES = {"value_with_non_ascii_edge_whitespace": known_nonascii_ws_value,
+                    "blank_only_value_in_multi_column_row": known_blank_value_in_row,
                     "query_error_retry_engine_without_types": known_error_retry_no_types,
                     "valuewise_result_mode_in_updated_tree": known_valuewise_update, "stray_carriage_return": known_stray_cr, "empty_sql_at_eof": known_empty_sql_at_eof,
                     "model_predicts_humantime_overflow_panic": known_humantime_panic}
